@@ -714,6 +714,115 @@ pub fn check_stress(case: &StressCase) -> CaseResult {
     Ok(classes)
 }
 
+
+/// new keys are described, registered and updated (in that order) while readouts run
+#[derive(Clone, Debug, Serialize, Deserialize)]
+pub struct NewKeysCase {
+    pub idle: u16,
+    pub new_keys: u16,
+    pub kind: u8,
+    pub unit: u8,
+    pub updaters: u8,
+}
+
+pub fn check_new_keys(case: &NewKeysCase) -> CaseResult {
+    let rec: Rec24 = MetricRecorder::new();
+    let n_idle = 200 + (case.idle as usize % 4000);
+    let n_new = 200 + (case.new_keys as usize % 3000);
+    let nu = 1 + (case.updaters % 3) as usize;
+    let (unit, unit_name) = UNITS[1 + (case.unit as usize % (UNITS.len() - 1))];
+    let kind = case.kind % 3;
+    // a large registry lengthens each readout
+    let idle: Vec<_> = (0..n_idle)
+        .map(|i| rec.register_counter(&Key::from_name(format!("idle{i}")), &meta()))
+        .collect();
+    idle[0].increment(1);
+    let mut seen: BTreeMap<String, u64> = BTreeMap::new();
+    let mut readouts = 0u64;
+    let mut overlapped = 0u64;
+    let mut added = 0usize;
+    let live_readouts = std::sync::atomic::AtomicU64::new(0);
+    let logs: Vec<RecLog> = std::thread::scope(|s| {
+        let hs: Vec<_> = (0..nu)
+            .map(|t| {
+                let rec = &rec;
+                let live_readouts = &live_readouts;
+                s.spawn(move || {
+                    // at least n_new keys, and keep going until some readouts have overlapped
+                    let mut i = 0usize;
+                    loop {
+                        if (i >= n_new && live_readouts.load(std::sync::atomic::Ordering::Relaxed) >= 5) || i >= 15_000 {
+                            break i;
+                        }
+                        i += 1;
+                        let name = format!("new{t}.{i}");
+                        match kind {
+                            0 => {
+                                rec.describe_counter(name.clone().into(), unit, "d".into());
+                                rec.register_counter(&Key::from_name(name), &meta()).increment(1);
+                            }
+                            1 => {
+                                rec.describe_histogram(name.clone().into(), unit, "d".into());
+                                rec.register_histogram(&Key::from_name(name), &meta()).record(3.0);
+                            }
+                            _ => {
+                                rec.describe_gauge(name.clone().into(), unit, "d".into());
+                                rec.register_gauge(&Key::from_name(name), &meta()).set(2.0);
+                            }
+                        }
+                    }
+                })
+            })
+            .collect();
+        let mut logs = vec![];
+        while hs.iter().any(|h| !h.is_finished()) {
+            logs.push(record(&rec.readout()));
+            live_readouts.fetch_add(1, std::sync::atomic::Ordering::Relaxed);
+        }
+        for h in hs {
+            added += h.join().unwrap_or(0);
+        }
+        logs.push(record(&rec.readout()));
+        logs
+    });
+    for log in &logs {
+        readouts += 1;
+        let mut any_new = false;
+        for r in &log.recs {
+            if let Rec::Value { name, val } = r {
+                if !name.starts_with("new") {
+                    continue;
+                }
+                any_new = true;
+                let RecVal::Metric { unit: u, .. } = val else {
+                    vfail!("bridge:not-a-metric", "readout wrote {name:?} as {val:?}");
+                };
+                vensure!(
+                    u == unit_name,
+                    "bridge:described-unit-missing",
+                    "{name} was described as {unit_name} before it was registered, but readout #{readouts} (running while new keys were being added; {n_idle} idle keys) wrote it with unit {u}"
+                );
+                *seen.entry(name.clone()).or_insert(0) += 1;
+            }
+        }
+        if any_new && readouts < logs.len() as u64 {
+            overlapped += 1;
+        }
+    }
+    // every new key was reported at least once (counter / histogram: exactly once with a value)
+    vensure!(
+        seen.len() == added,
+        "bridge:new-key-never-reported",
+        "{added} new keys registered and updated, {} ever reported",
+        seen.len()
+    );
+    let mut classes: Classes = vec![];
+    if overlapped >= 2 {
+        classes.push("nt");
+    }
+    Ok(classes)
+}
+
 pub fn run(ctx: &mut Ctx) {
     ctx.assume("histogram samples are in [0, +inf) (negative / NaN samples are outside the bridge's documented u32 domain); the recorded integer is the sample truncated and clamped to u32::MAX");
     ctx.assume("one writer thread per gauge key so that 'last value set' is defined; units are asserted on readouts taken at quiescent points (describe races with a concurrent readout by nature)");
@@ -802,5 +911,17 @@ pub fn run(ctx: &mut Ctx) {
             })
         },
         check_stress,
+    );
+    ctx.explore(
+        SubCfg::new(
+            "c20-new-keys-during-readout",
+            "1-3 threads add 200-3200 brand-new keys each (more until five readouts have run meanwhile, at most 15 000) - describe (one of the 18 units), register, update, in that order - while the main thread calls readout() in a tight loop over a registry of 200-4200 idle counters. Oracle: describe happens before register, so whenever a readout reports such a key it carries the described unit; every new key is reported. Non-trivial = at least two readouts that ran during the additions reported new keys",
+            if q { 30 } else { 1_000 },
+        )
+        .shrink_iters(6),
+        || {
+            (any::<u16>(), any::<u16>(), any::<u8>(), any::<u8>(), any::<u8>()).prop_map(|(idle, new_keys, kind, unit, updaters)| NewKeysCase { idle, new_keys, kind, unit, updaters })
+        },
+        check_new_keys,
     );
 }
